@@ -3,7 +3,9 @@
 //! entries) to the embedded output `out0` and returns the bound that the collection's *type*
 //! claims, `B::bound_kind()`. The runner checks the observed history against that claim.
 //!
-//! `nondet!` only appears in the snapshot shims; no `q!` closures are used here.
+//! `nondet!` only appears in the snapshot shims; no `q!` closures are used here. The impls are
+//! written out one by one (no `macro_rules!`: stageleft's staged copy of the crate would expand
+//! them a second time).
 
 use hydro_lang::live_collections::batch_atomic::BatchAtomic;
 use hydro_lang::live_collections::keyed_singleton::{BoundedValue, KeyedSingletonBound, MonotonicValue};
@@ -19,35 +21,69 @@ pub trait Observe33 {
     fn observe33(self) -> String;
 }
 
-macro_rules! keyed_snapshot {
-    ($b:ty) => {
-        impl<'a, V: Clone + 'a> Observe33 for KeyedSingleton<i32, V, P<'a>, $b> {
-            fn observe33(self) -> String {
-                let tick = self.location().tick();
-                self.snapshot(&tick, nondet!(/** harness observation shim: per-tick snapshot */))
-                    .entries()
-                    .all_ticks()
-                    .assume_ordering::<TotalOrder>(nondet!(/** harness observation shim: compared as a set */))
-                    .embedded_output("out0");
-                format!("{:?}", <$b as KeyedSingletonBound>::bound_kind())
-            }
-        }
-        impl<'a, V: Clone + 'a> Observe33 for KeyedSingleton<i32, V, Atomic<P<'a>>, $b> {
-            fn observe33(self) -> String {
-                self.batched_atomic()
-                    .entries()
-                    .all_ticks()
-                    .assume_ordering::<TotalOrder>(nondet!(/** harness observation shim: compared as a set */))
-                    .embedded_output("out0");
-                format!("{:?}", <$b as KeyedSingletonBound>::bound_kind())
-            }
-        }
-    };
+impl<'a, V: Clone + 'a> Observe33 for KeyedSingleton<i32, V, P<'a>, Unbounded> {
+    fn observe33(self) -> String {
+        let tick = self.location().tick();
+        self.snapshot(&tick, nondet!(/** harness observation shim: per-tick snapshot */))
+            .entries()
+            .all_ticks()
+            .assume_ordering::<TotalOrder>(nondet!(/** harness observation shim: compared as a set */))
+            .embedded_output("out0");
+        format!("{:?}", <Unbounded as KeyedSingletonBound>::bound_kind())
+    }
 }
-keyed_snapshot!(Unbounded);
-keyed_snapshot!(MonotonicKeys);
-keyed_snapshot!(MonotonicValue);
-
+impl<'a, V: Clone + 'a> Observe33 for KeyedSingleton<i32, V, Atomic<P<'a>>, Unbounded> {
+    fn observe33(self) -> String {
+        self.batched_atomic()
+            .entries()
+            .all_ticks()
+            .assume_ordering::<TotalOrder>(nondet!(/** harness observation shim: compared as a set */))
+            .embedded_output("out0");
+        format!("{:?}", <Unbounded as KeyedSingletonBound>::bound_kind())
+    }
+}
+impl<'a, V: Clone + 'a> Observe33 for KeyedSingleton<i32, V, P<'a>, MonotonicKeys> {
+    fn observe33(self) -> String {
+        let tick = self.location().tick();
+        self.snapshot(&tick, nondet!(/** harness observation shim: per-tick snapshot */))
+            .entries()
+            .all_ticks()
+            .assume_ordering::<TotalOrder>(nondet!(/** harness observation shim: compared as a set */))
+            .embedded_output("out0");
+        format!("{:?}", <MonotonicKeys as KeyedSingletonBound>::bound_kind())
+    }
+}
+impl<'a, V: Clone + 'a> Observe33 for KeyedSingleton<i32, V, Atomic<P<'a>>, MonotonicKeys> {
+    fn observe33(self) -> String {
+        self.batched_atomic()
+            .entries()
+            .all_ticks()
+            .assume_ordering::<TotalOrder>(nondet!(/** harness observation shim: compared as a set */))
+            .embedded_output("out0");
+        format!("{:?}", <MonotonicKeys as KeyedSingletonBound>::bound_kind())
+    }
+}
+impl<'a, V: Clone + 'a> Observe33 for KeyedSingleton<i32, V, P<'a>, MonotonicValue> {
+    fn observe33(self) -> String {
+        let tick = self.location().tick();
+        self.snapshot(&tick, nondet!(/** harness observation shim: per-tick snapshot */))
+            .entries()
+            .all_ticks()
+            .assume_ordering::<TotalOrder>(nondet!(/** harness observation shim: compared as a set */))
+            .embedded_output("out0");
+        format!("{:?}", <MonotonicValue as KeyedSingletonBound>::bound_kind())
+    }
+}
+impl<'a, V: Clone + 'a> Observe33 for KeyedSingleton<i32, V, Atomic<P<'a>>, MonotonicValue> {
+    fn observe33(self) -> String {
+        self.batched_atomic()
+            .entries()
+            .all_ticks()
+            .assume_ordering::<TotalOrder>(nondet!(/** harness observation shim: compared as a set */))
+            .embedded_output("out0");
+        format!("{:?}", <MonotonicValue as KeyedSingletonBound>::bound_kind())
+    }
+}
 // bounded values: only the stream of *new* entries can be observed
 impl<'a, V: Clone + 'a> Observe33 for KeyedSingleton<i32, V, P<'a>, BoundedValue> {
     fn observe33(self) -> String {
@@ -66,25 +102,33 @@ impl<'a, V: Clone + 'a> Observe33 for KeyedSingleton<i32, V, Atomic<P<'a>>, Boun
         format!("{:?}", <BoundedValue as KeyedSingletonBound>::bound_kind())
     }
 }
-
-macro_rules! singleton_snapshot {
-    ($b:ty) => {
-        impl<'a, V: Clone + 'a> Observe33 for Singleton<V, P<'a>, $b> {
-            fn observe33(self) -> String {
-                let tick = self.location().tick();
-                self.snapshot(&tick, nondet!(/** harness observation shim: per-tick snapshot */))
-                    .all_ticks()
-                    .embedded_output("out0");
-                format!("{:?}", <$b as SingletonBound>::bound_kind())
-            }
-        }
-        impl<'a, V: Clone + 'a> Observe33 for Singleton<V, Atomic<P<'a>>, $b> {
-            fn observe33(self) -> String {
-                self.batched_atomic().all_ticks().embedded_output("out0");
-                format!("{:?}", <$b as SingletonBound>::bound_kind())
-            }
-        }
-    };
+impl<'a, V: Clone + 'a> Observe33 for Singleton<V, P<'a>, Unbounded> {
+    fn observe33(self) -> String {
+        let tick = self.location().tick();
+        self.snapshot(&tick, nondet!(/** harness observation shim: per-tick snapshot */))
+            .all_ticks()
+            .embedded_output("out0");
+        format!("{:?}", <Unbounded as SingletonBound>::bound_kind())
+    }
 }
-singleton_snapshot!(Unbounded);
-singleton_snapshot!(Monotonic);
+impl<'a, V: Clone + 'a> Observe33 for Singleton<V, Atomic<P<'a>>, Unbounded> {
+    fn observe33(self) -> String {
+        self.batched_atomic().all_ticks().embedded_output("out0");
+        format!("{:?}", <Unbounded as SingletonBound>::bound_kind())
+    }
+}
+impl<'a, V: Clone + 'a> Observe33 for Singleton<V, P<'a>, Monotonic> {
+    fn observe33(self) -> String {
+        let tick = self.location().tick();
+        self.snapshot(&tick, nondet!(/** harness observation shim: per-tick snapshot */))
+            .all_ticks()
+            .embedded_output("out0");
+        format!("{:?}", <Monotonic as SingletonBound>::bound_kind())
+    }
+}
+impl<'a, V: Clone + 'a> Observe33 for Singleton<V, Atomic<P<'a>>, Monotonic> {
+    fn observe33(self) -> String {
+        self.batched_atomic().all_ticks().embedded_output("out0");
+        format!("{:?}", <Monotonic as SingletonBound>::bound_kind())
+    }
+}
